@@ -92,6 +92,24 @@ type w1Cfg struct {
 	UnsubFailPm        int  `json:"broker_unsubscribe_fail_pm"`
 	SettleMs           int  `json:"settle_ms"`
 	ShutdownAtEnd      bool `json:"shutdown_at_end"`
+	// knobs added later (drawn last by the generator so that earlier scripts keep their shape)
+	TimerSched      bool `json:"timer_scheduler,omitempty"`       // Config.ClientTimerScheduler: simulated scheduler (one goroutine per callback)
+	PosCheckConc    int  `json:"position_check_conc,omitempty"`   // clientPositionCheckConcurrency
+	MaxTimeLagMs    int  `json:"position_max_time_lag_ms,omitempty"`
+	ExpiredSubMs    int  `json:"expired_sub_close_delay_ms,omitempty"`
+	QueueInitialCap int  `json:"queue_initial_cap,omitempty"`
+}
+
+// w1TimerScheduler is a Config.ClientTimerScheduler on the simulated clock: every callback
+// runs on its own goroutine created by the simulator's AfterFunc (logical timer identity).
+type w1TimerScheduler struct{}
+
+type w1TimerCanceler struct{ t *time.Timer }
+
+func (c w1TimerCanceler) Cancel() { c.t.Stop() }
+
+func (w1TimerScheduler) ScheduleTimer(d time.Duration, cb func()) TimerCanceler {
+	return w1TimerCanceler{t: simrt.AfterFunc(d, cb)}
 }
 
 type w1Script struct {
@@ -767,6 +785,18 @@ func (w *w1World) setup() error {
 	if cfg.PresenceConc > 1 {
 		nc.clientPresenceUpdateConcurrency = cfg.PresenceConc
 	}
+	if cfg.PosCheckConc > 1 {
+		nc.clientPositionCheckConcurrency = cfg.PosCheckConc
+	}
+	if cfg.TimerSched {
+		nc.ClientTimerScheduler = w1TimerScheduler{}
+	}
+	if cfg.MaxTimeLagMs > 0 {
+		nc.ClientChannelPositionMaxTimeLag = time.Duration(cfg.MaxTimeLagMs) * time.Millisecond
+	}
+	if cfg.ExpiredSubMs > 0 {
+		nc.ClientExpiredSubCloseDelay = time.Duration(cfg.ExpiredSubMs) * time.Millisecond
+	}
 	if cfg.Batch {
 		nc.GetChannelBatchConfig = func(ch string) ChannelBatchConfig {
 			if chHas(ch, 'b') {
@@ -822,6 +852,10 @@ func (w *w1World) setup() error {
 		r.ReplyWithoutQueue = cfg.ReplyNoQueue
 		r.WriteDelay = time.Duration(cfg.WriteDelayUs) * time.Microsecond
 		r.WriteWithTimer = cfg.WriteTimer
+		if cfg.QueueInitialCap > 0 {
+			r.QueueInitialCap = cfg.QueueInitialCap
+			r.QueueShrinkDelay = 5 * time.Millisecond
+		}
 		return r, nil
 	})
 	node.OnConnect(func(c *Client) {
@@ -1678,6 +1712,16 @@ func w1Gen(c *simrt.Choice, prop, tier string) any {
 		ops := []w1Op{{K: "sleep", DelayUs: []int{0, 1, 100, 2000, 200000}[c.Intn(5)]}, {K: "shutdown"}}
 		sc.Admins = append(sc.Admins, ops)
 	}
+	// configuration knobs added later: drawn last
+	cfg.TimerSched = c.Intn(5) == 0
+	cfg.PosCheckConc = []int{0, 0, 4}[c.Intn(3)]
+	if prop == "C01" || prop == "C38" {
+		cfg.MaxTimeLagMs = []int{0, 0, 0, 1500}[c.Intn(4)]
+	}
+	if prop == "C36" {
+		cfg.ExpiredSubMs = []int{0, 500, 1000}[c.Intn(3)]
+	}
+	cfg.QueueInitialCap = []int{0, 0, 1, 2}[c.Intn(4)]
 	return sc
 }
 
